@@ -43,9 +43,14 @@ static void observer(const DenseMatrix& lhs, const DenseMatrix&, const Eigendeco
 }
 
 // ------------------------------------------------------------------ recording distance callback
+struct query
+{
+    int a, b, level; // level = omp_get_level(): 0 in sequential code, >= 1 inside the relax loop's parallel region
+};
+
 struct query_log
 {
-    std::vector<std::pair<int, int>> q;
+    std::vector<query> q;
 };
 
 struct recording_distance
@@ -54,8 +59,9 @@ struct recording_distance
     query_log* log;
     inline ScalarType distance(int a, int b) const
     {
+        query x{a, b, omp_get_level()};
 #pragma omp critical(c04_record)
-        log->q.push_back(std::make_pair(a, b));
+        log->q.push_back(x);
         return (*W)(a, b);
     }
 };
@@ -63,14 +69,14 @@ struct recording_distance
 // Split the query log (positions) into neighbour-search rounds and the relax loop's edge queries, without depending on
 // the order in which a round asks its questions: a round is a stretch of queries without a repeated ordered pair that
 // covers every ordered pair (i, j), i != j (the self pair (i, i) is optional); the stretch ends at the first repeated
-// pair.  The first stretch that is not such a round starts the relax loop, whose queries are exactly edges.
+// pair.  Queries made inside a parallel region (omp_get_level() >= 1: the relax loop, whatever the thread count) are
+// edges; if the search itself ran inside a parallel region too (no sequential query at all) the first stretch that
+// is not a round starts the relax loop.
 // `shape` = "ok" or a description of what was not recognised (reported as a broken observation, not a failing input).
-static void observed_lists(const std::vector<std::pair<int, int>>& q, IndexType N, Neighbors& nb, int& rounds,
-                           std::string& shape)
+static size_t count_rounds(const std::vector<query>& q, IndexType N, int& rounds)
 {
     size_t pos = 0;
     rounds = 0;
-    shape = "ok";
     const size_t need = (size_t)N * (size_t)(N - 1);
     while (pos < q.size())
     {
@@ -78,11 +84,11 @@ static void observed_lists(const std::vector<std::pair<int, int>>& q, IndexType 
         size_t offdiag = 0, t = pos;
         for (; t < q.size(); t++)
         {
-            if (q[t].first < 0 || q[t].second < 0)
+            if (q[t].a < 0 || q[t].b < 0)
                 break;
-            if (!seen.insert(q[t]).second)
+            if (!seen.insert(std::make_pair(q[t].a, q[t].b)).second)
                 break;
-            if (q[t].first != q[t].second)
+            if (q[t].a != q[t].b)
                 offdiag++;
         }
         if (offdiag != need)
@@ -90,15 +96,37 @@ static void observed_lists(const std::vector<std::pair<int, int>>& q, IndexType 
         rounds++;
         pos = t;
     }
-    std::vector<std::set<IndexType>> sets(N);
-    for (; pos < q.size(); pos++)
+    return pos;
+}
+
+static void observed_lists(const std::vector<query>& q, IndexType N, Neighbors& nb, int& rounds, std::string& shape)
+{
+    shape = "ok";
+    std::vector<query> seq, par;
+    for (auto& x : q)
+        (x.level == 0 ? seq : par).push_back(x);
+    std::vector<query> edges;
+    if (!seq.empty())
     {
-        if (q[pos].first < 0 || q[pos].second < 0)
+        size_t pos = count_rounds(seq, N, rounds);
+        if (pos != seq.size())
+            shape = "sequential-queries-that-are-not-complete-pair-covers";
+        edges = par;
+    }
+    else
+    {
+        size_t pos = count_rounds(par, N, rounds);
+        edges.assign(par.begin() + pos, par.end());
+    }
+    std::vector<std::set<IndexType>> sets(N);
+    for (auto& x : edges)
+    {
+        if (x.a < 0 || x.b < 0)
         {
             shape = "query-outside-the-index-range";
             continue;
         }
-        sets[q[pos].first].insert(q[pos].second);
+        sets[x.a].insert(x.b);
     }
     nb.clear();
     for (IndexType u = 0; u < N; u++)
@@ -164,10 +192,10 @@ static std::string run_iso(std::map<std::string, std::string>& f)
     std::vector<int> pos_of(Wv.rows(), -1);
     for (IndexType i = 0; i < N; i++)
         pos_of[idx[i]] = i;
-    std::vector<std::pair<int, int>> qpos;
-    for (auto& pr : log.q)
-        qpos.push_back(std::make_pair(pr.first >= 0 && pr.first < (int)pos_of.size() ? pos_of[pr.first] : -1,
-                                      pr.second >= 0 && pr.second < (int)pos_of.size() ? pos_of[pr.second] : -1));
+    std::vector<query> qpos;
+    for (auto& x : log.q)
+        qpos.push_back(query{x.a >= 0 && x.a < (int)pos_of.size() ? pos_of[x.a] : -1,
+                             x.b >= 0 && x.b < (int)pos_of.size() ? pos_of[x.b] : -1, x.level});
     observed_lists(qpos, N, nb, rounds, shape);
     o << "nb=" << show_lists(nb) << " rounds=" << rounds << " shape=" << shape;
     if (!thrown.empty())
